@@ -13,8 +13,9 @@ ID = 'C15'
 PROPS_V = 'C15/Props.v'
 LEVEL = 'proof'
 TRUSTED = [
-    'hand-written Gallina model C15/Model.v of computechi2 and of HMF.astep/gstep/astepnn/gstepnn/badness/normbase '
-    '(tied to the code by the correspondence run only; no translator)',
+    'translate/c15.py (ast extractor, fail closed): elementwise expressions, broadcasting axes, slice offsets of computechi2 / '
+    'pcomp / the HMF steps, the structure of HMF.iterate (seed test and its place, step list per mode, normalisation statements, '
+    'defaults) and the decision logic / formulas of pca_solve; list plumbing of C15/Model.v is hand-written',
     'C13/LinAlg.v Gaussian elimination is NOT trusted: solve_checked/inverse_checked re-multiply before answering',
     'LAPACK (numpy.linalg.svd/solve/eigh, scipy.linalg.eigh) is an oracle: its outputs are checked per case by the '
     'certified checkers chi2_ok / eig_ok / pcomp_ok / pca_ok evaluated in Coq, never modelled',
@@ -36,9 +37,15 @@ ASSUMPTIONS = [
     'HMF steps: every row/column sub-problem is non-singular (cond < 1e5); M >= 2 pixels; positive a, g and '
     'non-negative data for the multiplicative (non-negative) updates so that no denominator vanishes',
     'HMF.solve: data without all-zero columns, N >= 6 K spectra so that scipy kmeans returns K centroids',
-    'pca_solve: every object has more good pixels than kept components; maxiter = 0 (no rejection pass); the returned '
-    'eigenspectra are float32, so the projection identity is checked at 1e-5 relative',
+    'pca_solve: every object has more good pixels than kept components and is not constant over its pixels (a constant spectrum '
+    'takes the `goodobj` branch, which raises ValueError in the unmodified code: see notes, outside the quantifier); maxiter 0, 1, 2 '
+    '(pca_solve calls djs_reject without limits, so nothing is ever rejected: the second pass repeats the first); nreturn >= nkeep; '
+    'the returned eigenspectra are float32, so the projection identity is checked at 1e-5 relative',
+    'storage types: float32 inputs make computechi2 / pcomp(standardize) work in float32; their rounding tolerances are multiplied '
+    'by 1e4 / 1e3 (the certified chi2-minimality clause is not); integer inputs are exact',
     'badness monotonicity in floating point is required up to 1e-9 relative slack',
+    'HMF.iterate: one pass of the real loop is replayed in Coq only for runs with N*M*K <= 300 (exact arithmetic on full doubles); '
+    'for larger runs the loop structure, monotonicity, unit rms, non-negativity and reproducibility are observed directly',
 ]
 
 def translate(ctx):
@@ -169,12 +176,62 @@ def graded_systems(ctx):
     return [c for g in GRADES for c in found[g]]
 
 
+PREC32_CHI2 = 10000    # float32 working precision (6e-8) against the float64 tolerances 1e-9 / 1e-8
+PREC32_PCOMP = 1000
+
+
+def shape_and_dtype_systems(ctx):
+    """computechi2 on extreme shapes (square systems: dof 0; 1 x 1; one column; long and wide) and in other storage
+    types (float32: the code then works in float32 throughout; int32 / int64 / mixed: exact)"""
+    rng = ctx.rng
+    out = []
+
+    def system(n, m, zero, ints=False, bits=3):
+        for _ in range(200):
+            if ints:
+                A = [[float(rng.randint(-8, 8)) for _ in range(m)] for _ in range(n)]
+                b = [float(rng.randint(-16, 16)) for _ in range(n)]
+                sq = [(0.0 if rng.random() < zero else float(rng.randint(1, 4))) for _ in range(n)]
+            else:
+                A = dmat(rng, n, m, -2, 2, bits)
+                b = [dy(rng, -4, 4, 4) for _ in range(n)]
+                sq = [(0.0 if rng.random() < zero else dy(rng, 0.25, 2, 3)) for _ in range(n)]
+            if sum(1 for v in sq if v > 0) < m:
+                continue
+            An = np.array(A)
+            if cond(An.T @ np.diag(np.array(sq) ** 2) @ An) < 1e4:
+                return {'f': 'chi2', 'b': b, 'sq': sq, 'A': A}
+        raise RuntimeError('no well-conditioned system of shape %d x %d' % (n, m))
+
+    shapes = [(1, 1, 0.0), (2, 2, 0.0), (3, 3, 0.0), (4, 4, 0.0), (2, 1, 0.0), (9, 1, 0.3), (40, 5, 0.2), (25, 6, 0.0), (12, 4, 0.5)]
+    for k in range(ctx.n(len(shapes), 60)):
+        n, m, z = shapes[k % len(shapes)]
+        c = system(n, m, z)
+        c['_family'] = 'square' if n == m else 'shape'
+        out.append(('chi2-shape', c))
+    dts = [{'b': 'f4', 'sq': 'f4', 'A': 'f4'}, {'b': 'i8', 'sq': 'i8', 'A': 'i8'}, {'b': 'i4', 'sq': 'i4', 'A': 'i4'},
+           {'b': 'f8', 'sq': 'i8', 'A': 'f4'}, {'b': 'f4', 'sq': 'f4', 'A': 'f4'}, {'b': 'i8', 'sq': 'f8', 'A': 'i4'},
+           {'b': 'f4', 'sq': 'f8', 'A': 'f8'}, {'b': 'i4', 'sq': 'i8', 'A': 'f8'}]
+    for k in range(ctx.n(len(dts), 48)):
+        dt = dts[k % len(dts)]
+        ints = any(v[0] == 'i' for v in dt.values())
+        c = system(rng.randint(4, 10), rng.randint(1, 3), 0.25, ints=ints)
+        c['dtypes'] = dt
+        # numpy computes in float32 only when no operand is float64 / integer
+        if set(dt.values()) == {'f4'}:
+            c['_prec'] = PREC32_CHI2
+        elif dt['A'] == 'f4' and dt['sq'] == 'f4':
+            c['_prec'] = PREC32_CHI2
+        out.append(('chi2-dtype', c))
+    return out
+
+
 def gen_chi2_systems(ctx):
     rng = ctx.rng
     calls = []
-    while len(calls) < ctx.n(30, 800):
-        n = rng.randint(4, 9)
-        m = rng.randint(1, 3)
+    while len(calls) < ctx.n(40, 800):
+        n = rng.randint(4, 14)
+        m = rng.randint(1, 4)
         A = dmat(rng, n, m, -2, 2, 3)
         b = [dy(rng, -4, 4, 4) for _ in range(n)]
         sq = [(0.0 if rng.random() < 0.3 else dy(rng, 0.25, 2, 3)) for _ in range(n)]
@@ -194,7 +251,7 @@ def gen_chi2_systems(ctx):
     # floats stay short), bvec scaled along or against: every statement about computechi2 is scale free
     scaled = []
     shifts = [-30, 30, -28, 25, -30, 30, -20, 12]
-    while len(scaled) < ctx.n(6, 40):
+    while len(scaled) < ctx.n(8, 40):
         k = shifts[len(scaled) % len(shifts)]
         n = rng.randint(5, 9)
         m = rng.randint(1, 3)
@@ -209,7 +266,7 @@ def gen_chi2_systems(ctx):
         b = [dy(rng, -4, 4, 4) * 2.0 ** bk for _ in range(n)]
         sq = [s * 2.0 ** k for s in sq0]
         scaled.append(('chi2-scaled', {'f': 'chi2', 'b': b, 'sq': sq, 'A': A, '_shift': [k, bk]}))
-    return calls + ill + scaled
+    return calls + ill + scaled + shape_and_dtype_systems(ctx)
 
 
 def frac_cov(x, ddof):
@@ -226,12 +283,23 @@ def gen_pcomp(ctx):
     calls = []
     combos = [(False, False), (False, True), (True, False), (True, True)]
     k = 0
-    while len(calls) < ctx.n(20, 500):
+    ntot = ctx.n(36, 500)
+    while len(calls) < ntot:
         st, cv = combos[k % 4]
+        kind = ['plain', 'plain', 'plain', 'plain', 'rankdef', 'big', 'wide', 'i8', 'f4'][len(calls) % 9]
         no = rng.randint(6, 9)
         nv = rng.randint(2, 4)
-        x = dmat(rng, no, nv, -4, 4, 3)
-        rankdef = nv >= 3 and (len(calls) % 5 == 4)
+        if kind == 'big':
+            no, nv = rng.randint(15, 30), rng.randint(4, 6)
+        if kind == 'wide':
+            # no more observations than variables: the matrix is singular by construction
+            nv = rng.randint(3, 5)
+            no = rng.randint(2, nv)
+        if kind == 'i8':
+            x = [[float(rng.randint(-20, 20)) for _ in range(nv)] for _ in range(no)]
+        else:
+            x = dmat(rng, no, nv, -4, 4, 3)
+        rankdef = nv >= 3 and kind == 'rankdef' 
         if rankdef:
             # one variable is an exact linear combination of two others: singular covariance / correlation matrix
             for row in x:
@@ -248,26 +316,37 @@ def gen_pcomp(ctx):
             cs = [[float(v) for v in r] for r in c1]
         sdc = [math.sqrt(cs[j][j]) for j in range(nv)]
         Cm = cs if cv else [[cs[i][j] / (sdc[i] * sdc[j]) for j in range(nv)] for i in range(nv)]
-        if not rankdef and cond(Cm) > 1e6:
+        if not (rankdef or kind == 'wide') and cond(Cm) > 1e6:
             continue
         k += 1
         orders = read_orders(rng, PCOMP_ATTRS, [['derived', 'variance', 'coefficients', 'eigenvalues']], 2)
-        calls.append(('pcomp-%s-%s%s' % ('std' if st else 'raw', 'cov' if cv else 'corr', '-rankdef' if rankdef else ''),
-                      {'f': 'pcomp', 'x': x, 'standardize': st, 'covariance': cv, '_sd0': sd0 if st else [], '_sdc': [] if cv else sdc,
-                       'orders': orders}))
+        c = {'f': 'pcomp', 'x': x, 'standardize': st, 'covariance': cv, '_sd0': sd0 if st else [], '_sdc': [] if cv else sdc,
+             'orders': orders, '_kind': kind}
+        if kind in ('i8', 'f4'):
+            c['dtype'] = kind
+            if kind == 'f4' and st:
+                c['_prec'] = PREC32_PCOMP      # the standardised array is then float32
+        calls.append(('pcomp-%s-%s%s' % ('std' if st else 'raw', 'cov' if cv else 'corr',
+                                          '-rankdef' if rankdef or kind == 'wide' else ''), c))
     return calls
 
 
 def gen_hmf_step(ctx):
     rng = ctx.rng
     calls = []
-    epss = [None, None, 0.5, 0.25, 0.0]
-    while len(calls) < ctx.n(16, 400):
-        N = rng.randint(3, 5)
-        M = rng.randint(3, 6)
-        K = rng.choice([1, 2, 2, 2, 3]) if N >= 4 and M >= 4 else rng.choice([1, 2])
-        s = dmat(rng, N, M, 0, 4, 3)
-        w = [[(0.0 if rng.random() < 0.15 else dy(rng, 0.25, 2, 2)) for _ in range(M)] for _ in range(N)]
+    epss = [None, None, 0.5, 0.25, 0.0, -0.5, 2.0]
+    while len(calls) < ctx.n(24, 400):
+        N = rng.randint(3, 8)
+        M = rng.choice([2, 3, 4, 5, 6, 8, 10])
+        K = rng.choice([1, 2, 2, 2, 3, 4]) if N >= 5 and M >= 5 else (rng.choice([1, 2]) if N >= 3 and M >= 3 else 1)
+        ints = len(calls) % 4 == 3
+        if ints:
+            # photon counts and integer weights stored as int64
+            s = [[float(rng.randint(0, 12)) for _ in range(M)] for _ in range(N)]
+            w = [[(0.0 if rng.random() < 0.15 else float(rng.randint(1, 3))) for _ in range(M)] for _ in range(N)]
+        else:
+            s = dmat(rng, N, M, 0, 4, 3)
+            w = [[(0.0 if rng.random() < 0.15 else dy(rng, 0.25, 2, 2)) for _ in range(M)] for _ in range(N)]
         a = dmat(rng, N, K, 0.25, 2, 2)
         g = dmat(rng, K, M, 0.25, 2, 2)
         eps = epss[len(calls) % len(epss)]
@@ -286,7 +365,10 @@ def gen_hmf_step(ctx):
             ok = False
         if not ok:
             continue
-        calls.append(('hmf_step-' + ('eps' if eps else 'noeps'), {'f': 'hmf_step', 's': s, 'w': w, 'a': a, 'g': g, 'eps': eps}))
+        c = {'f': 'hmf_step', 's': s, 'w': w, 'a': a, 'g': g, 'eps': eps, 'nonnegative': len(calls) % 3 == 2}
+        if ints:
+            c['dtype'] = 'i8'
+        calls.append(('hmf_step-' + ('eps' if eps and eps > 0 else 'noeps'), c))
     return calls
 
 
@@ -313,9 +395,10 @@ SEEDS = [0, 0, 2 ** 32 - 1, None, 1]
 def gen_hmf_solve(ctx):
     rng = ctx.rng
     calls = []
-    plan = [(False, None), (True, None), (False, 0.5), (False, None)] * ctx.n(1, 10)
-    for nonneg, eps in plan:
-        K = 2
+    plan = [(False, None, 2), (True, None, 2), (False, 0.5, 2), (False, None, 1), (True, 0.5, 2), (False, None, 2),
+            (True, None, 1), (False, 0.25, 3)] * ctx.n(1, 10)
+    for nonneg, eps, K0 in plan:
+        K = K0
         N = rng.randint(12, 16)
         M = rng.randint(6, 9)
         noise = 0.02
@@ -327,8 +410,19 @@ def gen_hmf_solve(ctx):
         w = [[(0.0 if rng.random() < 0.05 else dy(rng, 0.5, 2, 1)) for _ in range(M)] for _ in range(N)]
         for j in range(M):
             w[rng.randrange(N)][j] = 1.0
+        if K == 3:
+            N = max(N, 20)
+        dtype = None
+        if len(calls) % 8 == 5:
+            # integer-valued spectra and weights stored as int64
+            s = [[float(round(v * 16)) for v in r] for r in s]
+            w = [[float(round(v * 2)) for v in r] for r in w]
+            dtype = 'i8'
         calls.append(('hmf_solve-' + ('nn' if nonneg else 'std') + ('-eps' if eps else ''),
-                      {'f': 'hmf_solve', 's': s, 'w': w, 'K': K, 'n_iter': 4 if nonneg else 3,
+                      {'f': 'hmf_solve', 's': s, 'w': w, 'K': K, 'n_iter': 4 if nonneg else 3, 'dtype': dtype,
+                       # passes of the real loop replayed in Coq: exact arithmetic on full doubles grows with N*M*K, so only
+                       # the small runs are replayed (first or last pass in the quick tier, both in the thorough tier)
+                       'trace_passes': ([] if N * M * K > 300 else ([0, -1] if ctx.thorough else [[0], [-1]][len(calls) % 2])),
                        'seed': SEEDS[len(calls) % len(SEEDS)] if len(calls) % len(SEEDS) != 3 else rng.randrange(1, 10 ** 6),
                        'nonnegative': nonneg, 'eps': eps}))
     return calls
@@ -337,10 +431,10 @@ def gen_hmf_solve(ctx):
 def gen_pca(ctx):
     rng = ctx.rng
     calls = []
-    while len(calls) < ctx.n(8, 150):
-        nobj = rng.randint(4, 6)
-        npix = rng.randint(8, 11)
-        nkeep = rng.randint(1, 2)
+    while len(calls) < ctx.n(12, 150):
+        nobj = rng.randint(4, 8)
+        npix = rng.randint(8, 14)
+        nkeep = rng.choice([1, 2, 2, 3])
         flux = lowrank(rng, nobj, npix, 2, positive=True, noise=0.05)
         ivar = [[(0.0 if rng.random() < 0.2 else dy(rng, 0.5, 2, 1)) for _ in range(npix)] for _ in range(nobj)]
         tag = 'pca'
@@ -352,7 +446,11 @@ def gen_pca(ctx):
             tag = 'pca-deadpixel'
         if any(sum(1 for v in r if v > 0) < nkeep + 2 for r in ivar):
             continue
-        calls.append((tag, {'f': 'pca', 'flux': flux, 'ivar': ivar, 'nkeep': nkeep, 'niter': rng.randint(1, 3), 'maxiter': 0}))
+        niter = rng.randint(1, 3)
+        maxiter = [0, 0, 1, 2][len(calls) % 4]
+        nreturn = [None, nkeep, nkeep + 1][len(calls) % 3]
+        calls.append((tag, {'f': 'pca', 'flux': flux, 'ivar': ivar, 'nkeep': nkeep, 'niter': niter, 'maxiter': maxiter,
+                            'nreturn': nreturn, 'trace_passes': [0, -1]}))
     return calls
 
 
@@ -363,10 +461,10 @@ def case_term(c, r):
     o = r['ok']
     f = c['f']
     if f == 'chi2':
-        return '(CChi2 %s %s %s %s %s %s %s %s %s %s)' % (C.qlit(Fr(int(c.get('_slack', 1)))), qv(c['b']), qv(c['sq']), qm(c['A']), qv(o['acoeff']), C.qlit(o['chi2']),
+        return '(CChi2 %s %s %s %s %s %s %s %s %s %s %s)' % (C.qlit(Fr(int(c.get('_slack', 1)))), C.qlit(Fr(int(c.get('_prec', 1)))), qv(c['b']), qv(c['sq']), qm(c['A']), qv(o['acoeff']), C.qlit(o['chi2']),
                                                         qv(o['yfit']), C.zlit(o['dof']), qm(o['covar']), qv(o['var']))
     if f == 'pcomp':
-        return '(CPcomp %s %s %s %s %s %s %s %s %s)' % (qm(c['x']), C.boollit(c['standardize']), C.boollit(c['covariance']),
+        return '(CPcomp %s %s %s %s %s %s %s %s %s %s)' % (C.qlit(Fr(int(c.get('_prec', 1)))), qm(c['x']), C.boollit(c['standardize']), C.boollit(c['covariance']),
                                                          qv(c['_sd0']), qv(c['_sdc']), qv(o['eigenvalues']), qm(o['coefficients']),
                                                          qm(o['derived']), qv(o['variance']))
     if f == 'hmf_step':
@@ -374,16 +472,60 @@ def case_term(c, r):
             qm(c['s']), qm(c['w']), qm(c['a']), qm(c['g']), oq(c['eps']), qm(o['astep']), qm(o['gstep']), qm(o['astepnn']),
             qm(o['gstepnn']), qv(o['normbase']), C.qlit(o['badness']), C.qlit(o['badness_a']), C.qlit(o['badness_g']))
     if f == 'pca':
-        return '(CPca %s %s %d%%nat %s %s %s %s)' % (qm(c['flux']), qm(c['ivar']), c['nkeep'], qm(o['flux']), qm(o['acoeff']),
-                                                    qv(o['eigenval']), C.coq_list([C.zlit(v) + '%Z' for v in o['usemask']]))
+        return '(CPca %s %s %d%%nat %s %s %s %s %s)' % (qm(c['flux']), qm(c['ivar']), c['nkeep'], qm(o['flux']), qm(o['acoeff']),
+                                                       qv(o['eigenval']), C.coq_list([C.zlit(v) + '%Z' for v in o['usemask']]),
+                                                       qm(o['outmask']))
     return None
+
+
+def state_lit(st):
+    return '(%s, %s)' % (qm(st[0]), qm(st[1]))
+
+
+def extra_terms(c, r):
+    """further Coq cases from one call: passes of the real HMF.iterate loop, inner passes of pca_solve and its last pcomp object.
+    Returns a list of (kind, term)."""
+    out = []
+    if 'ok' not in r:
+        return out
+    o = r['ok']
+    if c['f'] == 'hmf_solve' and o.get('loop'):
+        L = o['loop']
+        for ps in L['passes']:
+            st = ps['states']
+            out.append(('hmf_iter', '(CHmfIter %s %s %s %s %s %s %s)' % (
+                C.boollit(c['nonnegative']), qm(L['spectra']), qm(L['invvar']), oq(c['eps']), qv(ps['norm']),
+                state_lit(st[0]), C.coq_list([state_lit(x) for x in st[1:]]))))
+    if c['f'] == 'pca':
+        npass = len(o.get('passes', []))
+        for ps in o.get('passes', []):
+            k = ps['k']
+            last = k == o['n_pcomp_calls'] - 1
+            restart = (k + 1) % c['niter'] == 0          # the next pass starts again from the input flux
+            nxt = None if (last or restart) else ps['x_next']
+            if nxt is None and not last:
+                continue
+            out.append(('pca_step', '(CPcaStep %d%%nat %s %s %s %s %s %s)' % (
+                c['nkeep'], qm(c['flux']), qm(c['ivar']), qm(o['outmask']), qm(ps['pres']),
+                C.optlit(nxt, qm), C.optlit(o['acoeff'] if last else None, qm))))
+            if last:
+                x = ps['x']
+                xt = [list(col) for col in zip(*x)]          # what pcomp received: npix observations of nobj variables
+                c1 = frac_cov(xt, 1)
+                if all(c1[j][j] > 0 for j in range(len(c1))):
+                    sdc = [math.sqrt(c1[j][j]) for j in range(len(c1))]
+                    out.append(('pcomp', '(CPcomp 1 %s false false [] %s %s %s %s %s)' % (
+                        qm(xt), qv(sdc), qv(ps['eigenvalues']), qm(ps['coefficients']), qm(ps['pres']), qv(ps['variance']))))
+    return out
 
 
 CLAUSES = {
     'chi2': ['normal-equations', 'yfit', 'chi2', 'dof', 'covar-inverse', 'covar-symmetric', 'var-diagonal', 'chi2-not-minimal'],
     'pcomp': ['witness-sd0', 'witness-sdc', 'shape', 'eigen', 'outer-product', 'variance-fractions', 'variance-sum', 'derived'],
     'hmf_step': ['astep-optimal', 'gstep-optimal', 'badness-astep', 'badness-gstep', 'nonneg'],
-    'pca': ['shape', 'acoeff-projection', 'eigenvalues-descending', 'usemask-shape', 'usemask-count'],
+    'pca': ['shape', 'acoeff-projection', 'eigenvalues-descending', 'usemask-shape', 'usemask-count', 'outmask'],
+    'hmf_iter': ['loop-steps-optimal', 'loop-unit-rms', 'loop-nonneg'],
+    'pca_step': [],
 }
 
 
@@ -414,6 +556,60 @@ def run_calls(calls):
     return results, outs[0]['pydl_file']
 
 
+def slim(r):
+    """an implementation result without the bulky recorded passes (they are in the Coq case text)"""
+    if not isinstance(r, dict) or 'ok' not in r:
+        return r
+    return {'ok': {k: v for k, v in r['ok'].items() if k not in ('passes', 'loop')}}
+
+
+def hist(values):
+    out = {}
+    for v in values:
+        out[str(v)] = out.get(str(v), 0) + 1
+    return dict(sorted(out.items()))
+
+
+def input_distribution(calls, results):
+    """what the generators actually produced in this run, per function"""
+    d = {}
+    ch = [c for _, c in calls if c['f'] == 'chi2']
+    d['computechi2'] = {
+        'n': len(ch), 'rows': hist(len(c['A']) for c in ch), 'columns': hist(len(c['A'][0]) for c in ch),
+        'dof': hist(sum(1 for v in c['sq'] if v > 0) - len(c['A'][0]) for c in ch),
+        'zero_weight_fraction': round(sum(sum(1 for v in c['sq'] if v == 0) for c in ch) / max(1, sum(len(c['sq']) for c in ch)), 3),
+        'storage': hist('/'.join((c.get('dtypes') or {}).get(k, 'f8') for k in ('b', 'sq', 'A')) for c in ch),
+        'log2_weight_scale': hist(c['_shift'][0] for c in ch if '_shift' in c),
+        'log10_cond_of_graded': hist(int(round(math.log10(c['_cond']))) for c in ch if '_cond' in c),
+        'graded_construction': hist(c['_kind'] for c in ch if '_cond' in c),
+        'attribute_read_orders_per_object': hist(1 + len(c.get('orders', [])) for c in ch),
+        'result_dtypes': hist(r['ok']['result_dtypes']['acoeff'] + '/' + r['ok']['result_dtypes']['covar']
+                              for (_, c), r in zip(calls, results) if c['f'] == 'chi2' and 'ok' in r),
+    }
+    pc = [c for _, c in calls if c['f'] == 'pcomp']
+    d['pcomp'] = {'n': len(pc), 'observations': hist(len(c['x']) for c in pc), 'variables': hist(len(c['x'][0]) for c in pc),
+                  'options(standardize,covariance)': hist((c['standardize'], c['covariance']) for c in pc),
+                  'kind': hist(c.get('_kind') for c in pc), 'storage': hist(c.get('dtype', 'f8') for c in pc)}
+    hs = [c for _, c in calls if c['f'] == 'hmf_step']
+    d['hmf_step'] = {'n': len(hs), 'N': hist(len(c['s']) for c in hs), 'M': hist(len(c['s'][0]) for c in hs),
+                     'K': hist(len(c['g']) for c in hs), 'epsilon': hist(c['eps'] for c in hs),
+                     'storage': hist(c.get('dtype', 'f8') for c in hs), 'constructed_nonnegative': hist(c['nonnegative'] for c in hs),
+                     'zero_weight_fraction': round(sum(sum(1 for r in c['w'] for v in r if v == 0) for c in hs) /
+                                                   max(1, sum(len(c['w']) * len(c['w'][0]) for c in hs)), 3)}
+    sv = [c for _, c in calls if c['f'] == 'hmf_solve']
+    d['hmf_solve'] = {'n': len(sv), 'N x M': hist('%dx%d' % (len(c['s']), len(c['s'][0])) for c in sv), 'K': hist(c['K'] for c in sv),
+                      'mode(nonnegative,epsilon)': hist((c['nonnegative'], c['eps']) for c in sv), 'seed': hist(c['seed'] for c in sv),
+                      'n_iter': hist(c['n_iter'] for c in sv), 'storage': hist(c.get('dtype') or 'f8' for c in sv)}
+    pa = [c for _, c in calls if c['f'] == 'pca']
+    d['pca_solve'] = {'n': len(pa), 'nobj x npix': hist('%dx%d' % (len(c['flux']), len(c['flux'][0])) for c in pa),
+                      'nkeep': hist(c['nkeep'] for c in pa), 'nreturn': hist(c['nreturn'] for c in pa), 'niter': hist(c['niter'] for c in pa),
+                      'maxiter': hist(c['maxiter'] for c in pa),
+                      'dead_pixels': hist(sum(1 for j in range(len(c['ivar'][0])) if all(r[j] == 0 for r in c['ivar'])) for c in pa),
+                      'masked_fraction': round(sum(sum(1 for r in c['ivar'] for v in r if v == 0) for c in pa) /
+                                               max(1, sum(len(c['ivar']) * len(c['ivar'][0]) for c in pa)), 3)}
+    return d
+
+
 def check_solve(c, o):
     """direct checks on a full HMF.solve() run; returns list of (slug, text)"""
     bad = []
@@ -428,6 +624,16 @@ def check_solve(c, o):
         bad.append(('inputs-modified', "default mode modified the caller's spectra/invvar arrays"))
     if c['nonnegative'] and (o['min_a'] < 0 or o['min_g'] < 0):
         bad.append(('nonneg-violated', 'non-negative mode returned a negative factor (min a %r, min g %r)' % (o['min_a'], o['min_g'])))
+    L = o.get('loop')
+    if L:
+        if L['n_passes'] != c['n_iter']:
+            bad.append(('loop-count', 'HMF.iterate ran %d passes for n_iter=%d' % (L['n_passes'], c['n_iter'])))
+        if c['nonnegative'] and L['n_init_nn'] != 128:
+            bad.append(('nn-init-count', 'non-negative mode ran %d initial coefficient updates, the source read by the translator says 128' % L['n_init_nn']))
+        for ps in L['passes']:
+            want = ['astepnn', 'gstepnn', 'normbase'] if c['nonnegative'] else ['astep', 'gstep', 'reorder', 'normbase']
+            if ps['calls'] != want:
+                bad.append(('loop-steps', 'pass %d of the loop called %s, expected %s' % (ps['pass'], ps['calls'], want)))
     if any(abs(v - 1) > 1e-9 for v in o['rms']):
         bad.append(('not-unit-rms', 'components are not normalised to unit rms: %r' % (o['rms'],)))
     prev_after = None
@@ -468,6 +674,8 @@ def correspond(ctx, proof_ok=True):
             nd += 1
             for slug, text in check_solve(c, r['ok']):
                 direct.append(('C15:hmf_solve:%s' % slug, text, {'kind': 'failing-input', 'call': public(c), 'impl_result': r}))
+            for kind, t in extra_terms(c, r):
+                terms.append((ci, kind, t))
             continue
         o_ = r['ok']
         if o_.get('args_changed'):
@@ -481,6 +689,18 @@ def correspond(ctx, proof_ok=True):
                            'from the canonical order by %s' % (d0['attr'], c['f'], d0['order'], d0['maxdiff']),
                            {'kind': 'failing-input', 'call': public(c), 'history': d0['order'], 'attribute': d0['attr'],
                             'all_orders_that_differ': o_['order_dependent'], 'impl_result': r}))
+        if c['f'] == 'pca':
+            # the structure of pca_solve: niter inner passes per outer pass; one outer pass when maxiter = 0, else two (the
+            # first djs_reject call has no model and reports "not done", the second changes nothing and reports "done")
+            expect = c['niter'] * (1 if c['maxiter'] == 0 else 2)
+            if o_.get('n_pcomp_calls') != expect:
+                direct.append(('C15:pca:pass-count', 'pca_solve(niter=%d, maxiter=%d) ran pcomp %s times, expected %d' % (
+                    c['niter'], c['maxiter'], o_.get('n_pcomp_calls'), expect), {'kind': 'broken-correspondence', 'item': 'pca_solve loop structure', 'call': public(c)}, False))
+            if not o_.get('flux_is_derived', True):
+                direct.append(('C15:pca:flux-not-last-derived', "the returned eigenspectra / eigenvalues are not the first nreturn derived variables / "
+                               'eigenvalues of the last pcomp object', {'kind': 'failing-input', 'call': public(c), 'impl_result': {'ok': {k: v for k, v in o_.items() if k != 'passes'}}}, True))
+            for kind, t in extra_terms(c, r):
+                terms.append((ci, kind, t))
         if c['f'] == 'pca' and not o_.get('repeatable', True):
             direct.append(('C15:pca:not-repeatable', 'the same pca_solve call on fresh copies gave another answer after the first '
                            'result was edited in place', {'kind': 'failing-input', 'call': public(c), 'impl_result': r}))
@@ -490,25 +710,30 @@ def correspond(ctx, proof_ok=True):
         if c['f'] in ('pcomp', 'pca') and not (r['ok'].get('input_unchanged', True) and r['ok'].get('inputs_unchanged', True)):
             direct.append(('C15:%s:inputs-modified' % c['f'], 'the input arrays were modified',
                            {'kind': 'failing-input', 'call': public(c), 'impl_result': r}))
-        terms.append((ci, case_term(c, r)))
+        terms.append((ci, c['f'], case_term(c, r)))
 
     # hard caps: no case term above MAX_TERM characters reaches Coq, and no coqc process may run longer than
     # COQ_TIMEOUT seconds (a runaway exact computation then fails the run quickly instead of stalling it)
-    oversize = [k for k, (_, t) in enumerate(terms) if len(t) > MAX_TERM]
+    oversize = [k for k, (_, _k, t) in enumerate(terms) if len(t) > MAX_TERM]
     if oversize:
         raise RuntimeError('%d case terms exceed %d characters (generator bug): refusing to evaluate' % (len(oversize), MAX_TERM))
     cc = C.CoqCases(ctx.work, HEADER, 'run_cases', shard=4, timeout=COQ_TIMEOUT)
-    verdicts = cc.run([t for _, t in terms])
+    verdicts = cc.run([t for _, _k, t in terms])
     ctx.coverage['coq_eval_s'] = round(cc.coq_seconds, 1)
 
     dist = {}
     for (tag, c), r in zip(calls, results):
         k = tag + ':' + ('ok' if 'ok' in r else r.get('err', '?'))
         dist[k] = dist.get(k, 0) + 1
-    bad = [(ci, t, v) for (ci, t), v in zip(terms, verdicts) if v != 0]
+    bad = [(ci, kind, t, v) for (ci, kind, t), v in zip(terms, verdicts) if v != 0]
+    by_kind = {}
+    for _ci, kind, _t in terms:
+        by_kind[kind] = by_kind.get(kind, 0) + 1
     ctx.coverage.update({
         'evaluations': len(terms) + nd,
-        'distinct_nontrivial': len(set(t for _, t in terms)) + nd,
+        'distinct_nontrivial': len(set(t for _, _k, t in terms)) + nd,
+        'coq_cases_by_kind': by_kind,
+        'input_distribution': input_distribution(calls, results),
         'rule': 'one evaluation = one computechi2 / pcomp / pca_solve object or one set of HMF step calls (astep, gstep, astepnn, '
                 'gstepnn, normbase, 3 x badness from the same a, g) on the real code, its output compared in Coq with the exact-rational '
                 'model (computechi2, HMF steps; 1e-8 relative) and judged by the certified checkers chi2_ok / astep_ok / gstep_ok / '
@@ -516,39 +741,40 @@ def correspond(ctx, proof_ok=True):
                 'non-negativity, unit rms, per-step badness monotone)',
         'cases_by_kind_and_outcome': dist,
         'direct_checks': nd,
-        'model_disagreements': sum(1 for b in bad if b[2] & 1),
-        'spec_violations': sum(1 for b in bad if b[2] & 2),
-        'samples': [{'call': public(calls[ci][1]), 'impl': results[ci], 'coq_case': t[:400]}
-                    for ci, t in (terms[:1] + terms[len(terms) // 2:len(terms) // 2 + 1] + terms[-1:])],
+        'model_disagreements': sum(1 for b in bad if b[3] & 1),
+        'spec_violations': sum(1 for b in bad if b[3] & 2),
+        'samples': [{'call': public(calls[ci][1]), 'impl': slim(results[ci]), 'coq_case': t[:400]}
+                    for ci, _k, t in (terms[:1] + terms[len(terms) // 2:len(terms) // 2 + 1] + terms[-1:])],
     })
     seen = set()
-    for ci, t, v in bad:
+    for ci, kind, t, v in bad:
         tag, c = calls[ci]
         clauses = None
         if v & 2:
-            clauses = failing_clauses(cc, c['f'], t)
-            base = c['f'] + (':standardize=%s' % c['standardize'] if c['f'] == 'pcomp' else '')
+            clauses = failing_clauses(cc, kind, t)
+            base = kind + (':standardize=%s' % c['standardize'] if c['f'] == 'pcomp' else '') + (':in-pca_solve' if kind == 'pcomp' and c['f'] == 'pca' else '')
             sig = 'C15:%s:%s:property' % (base, '+'.join(clauses) if clauses else 'spec')
         else:
-            sig = 'C15:%s:model' % tag
+            sig = 'C15:%s:model' % (tag if kind == c['f'] else kind)
         if sig in seen:
             continue
         seen.add(sig)
         if v & 2:
             ctx.violation(sig, 'output of %s contradicts the specification checker (verdict %d)' % (tag, v),
                           {'kind': 'failing-input', 'call': public(c), 'witnesses': {k: v_ for k, v_ in c.items() if k.startswith('_')},
-                           'impl_result': results[ci], 'coq_case': t, 'verdict': v, 'failing_clauses': clauses,
+                           'impl_result': slim(results[ci]), 'coq_case': t, 'coq_case_kind': kind, 'verdict': v, 'failing_clauses': clauses,
                            'meaning': 'bit 2: the implementation output fails the certified checker (chi2_ok / astep_ok+gstep_ok+monotone+'
                                       'nonneg / pcomp_ok / pca_ok); bit 1: it differs from the algorithmic model'}, True)
         else:
             ctx.violation(sig, 'model and implementation disagree on %s (checker accepts the output)' % tag,
-                          {'kind': 'broken-correspondence', 'item': 'C15.Model.run_case', 'call': public(c),
-                           'impl_result': results[ci], 'coq_case': t, 'verdict': v}, False)
-    for sig, summary, rep in direct:
+                          {'kind': 'broken-correspondence', 'item': 'C15.Model.run_case (%s)' % kind, 'call': public(c),
+                           'impl_result': slim(results[ci]), 'coq_case': t, 'coq_case_kind': kind, 'verdict': v}, False)
+    for d in direct:
+        sig, summary, rep = d[0], d[1], d[2]
         if sig in seen:
             continue
         seen.add(sig)
-        ctx.violation(sig, summary, rep, True)
+        ctx.violation(sig, summary, rep, d[3] if len(d) > 3 else True)
 
 
 def replay(ctx, rep):
